@@ -9,7 +9,7 @@
    payload type that is a commutative monoid under addition. *)
 From Coq Require Import List Arith Bool Lia ZArith Ring.
 Import ListNotations.
-From QV Require Import Model.C09 Proofs.C09.
+From QV Require Import Model.C09 Proofs.C09 Proofs.C09_ext.
 
 (* 1. mixed radix numbers: digits/undigits are mutually inverse, with bounds *)
 Theorem C09_mixed_radix_roundtrip :
@@ -458,3 +458,112 @@ Example C09_nonvacuous_subsystem_apply :
   allpos ([2; 1] ++ 3 :: [2]) /\ valid [2; 1] [1; 0] /\ valid [2] [1] /\
   sa_split [2; 1; 3; 2] 2 (undigits [2; 1; 3; 2] [1; 0; 2; 1]) = (1, 2, 1).
 Proof. repeat split; try reflexivity; repeat constructor. Qed.
+
+(* 25. tensor(): the loop `out = kron(out, arg)` (left nested, pairwise
+       _data.kron) is the Kronecker product of the list - any number of
+       factors, rectangular factors (kets, bras) included, any commutative
+       semiring of entries.  For square factors this is the kron_list of the
+       product theorem (17, 18). *)
+Theorem C09_tensor_loop_is_kronecker_product :
+  forall (C : Type) (c0 c1 : C) (cadd cmul : C -> C -> C),
+    semi_ring_theory c0 c1 cadd cmul (@eq C) ->
+  forall (As : list (mat C)) rd cd i j,
+    allpos rd -> allpos cd -> length As = length rd -> length As = length cd ->
+    tensor_data C c1 cmul As rd cd i j = kron_rc C c1 cmul As rd cd i j /\
+    kron_rc C c1 cmul As rd rd i j = kron_list C c1 cmul As rd i j.
+Proof.
+  intros C c0 c1 cadd cmul SR As rd cd i j Hr Hc Lr Lc. split.
+  - exact (tensor_data_is_kron_rc C c0 c1 cadd cmul SR As rd cd i j Hr Hc Lr Lc).
+  - exact (kron_rc_square C c1 cmul As rd i j).
+Qed.
+Print Assumptions C09_tensor_loop_is_kronecker_product.
+
+Example C09_nonvacuous_tensor_loop :
+  let A : mat Z := fun i j => Z.of_nat (1 + i + 2 * j) in
+  let B : mat Z := fun i j => Z.of_nat (3 + 2 * i + j) in
+  let V : mat Z := fun i j => Z.of_nat (5 + i) in
+  allpos [2; 3; 2] /\ allpos [2; 3; 1] /\
+  tensor_data Z 1%Z Z.mul [A; B; V] [2; 3; 2] [2; 3; 1] 7 4 = 96%Z /\
+  kron_rc Z 1%Z Z.mul [A; B; V] [2; 3; 2] [2; 3; 1] 7 4 = 96%Z.
+Proof. repeat split; try reflexivity; repeat constructor. Qed.
+
+(* 26. kron_csr: the stored entries it produces mean kron2 of the meanings of
+       the two operands *)
+Theorem C09_kron_csr_meaning :
+  forall (C : Type) (c0 c1 : C) (cadd cmul : C -> C -> C),
+    semi_ring_theory c0 c1 cadd cmul (@eq C) ->
+  forall nrr ncr EL ER i j, 0 < nrr -> 0 < ncr ->
+    Forall (fun e : entry C => fst (fst e) < nrr /\ snd (fst e) < ncr) ER ->
+    den C c0 cadd (kron_csr_entries C cmul nrr ncr EL ER) i j =
+    kron2 C cmul (den C c0 cadd EL) (den C c0 cadd ER) nrr ncr i j.
+Proof. exact kron_csr_meaning. Qed.
+Print Assumptions C09_kron_csr_meaning.
+
+Example C09_nonvacuous_kron_csr :
+  let EL := [(0, 1, 2%Z); (1, 0, 3%Z)] in
+  let ER := [(0, 0, 5%Z); (2, 1, 7%Z)] in
+  Forall (fun e : entry Z => fst (fst e) < 3 /\ snd (fst e) < 2) ER /\
+  den Z 0%Z Z.add (kron_csr_entries Z Z.mul 3 2 EL ER) 5 1 = 21%Z.
+Proof. split; [repeat constructor|reflexivity]. Qed.
+
+(* 27. super_tensor = reshuffle(tensor(map reshuffle args)): for any number of
+       superoperator / operator-ket factors over any numbers of subsystems,
+       the row labels of all factors end up first (in factor order), then all
+       column labels - the labels of the superoperator over the tensor space *)
+Theorem C09_super_tensor_label_flow :
+  forall ls rs : list (list nat),
+    Forall2 (fun l r => length l = length r) ls rs ->
+    gather (super_of_tensor_order (repeat 1 (length (concat ls))))
+           (concat (map (fun p => gather (tensor_of_super_order (length (fst p))) (fst p ++ snd p))
+                        (combine ls rs)))
+    = concat ls ++ concat rs.
+Proof. exact super_tensor_label_flow. Qed.
+Print Assumptions C09_super_tensor_label_flow.
+
+Example C09_nonvacuous_super_tensor :
+  Forall2 (fun l r : list nat => length l = length r) [[10; 11]; [12]] [[20; 21]; [22]] /\
+  concat (map (fun p : list nat * list nat =>
+                 gather (tensor_of_super_order (length (fst p))) (fst p ++ snd p))
+              (combine [[10; 11]; [12]] [[20; 21]; [22]])) = [10; 20; 11; 21; 12; 22].
+Proof. split; [repeat constructor|reflexivity]. Qed.
+
+(* 28. tensor_swap for EVERY Qobj type (kets, bras, operators, operator-kets,
+       superoperators; 1-dimensional factors included): with mo the memory
+       order of the tensor axes (axis a carries dims label mo[a]), the entry
+       whose label digits are Ld goes to the entry whose label digits are Ld
+       with the named pairs exchanged, laid out in the same memory order with
+       the exchanged dims.  (The result is then read with the new dims, whose
+       memory order is the same whenever it is fixed by the structure: always
+       for kets/bras/operators - theorem 13 -, and for superoperator sides
+       without 1-dimensional subsystems - theorem 29.) *)
+Theorem C09_tensor_swap_any_type :
+  forall stl str fl fr pairs Ld,
+    length stl = length fl -> length str = length fr -> valid (fl ++ fr) Ld ->
+    (forall p, In p pairs -> fst p < length (fl ++ fr) /\ snd p < length (fl ++ fr)) ->
+    let mo := memory_order stl str fl fr in
+    tensor_swap_index stl str fl fr pairs (undigits (gather mo (fl ++ fr)) (gather mo Ld)) =
+    undigits (gather mo (apply_swaps (fl ++ fr) pairs)) (gather mo (apply_swaps Ld pairs)).
+Proof. exact tensor_swap_any_type. Qed.
+Print Assumptions C09_tensor_swap_any_type.
+
+Example C09_nonvacuous_tensor_swap_super :
+  (* super side [[2],[3]] | operator-ket column [1]: labels (l=2, r=3), memory (r, l) *)
+  memory_order (steps_super [2] [3]) (steps [1]) [2; 3] [1] = [1; 0; 2] /\
+  valid ([2; 3] ++ [1]) [1; 0; 0] /\
+  tensor_swap_index (steps_super [2] [3]) (steps [1]) [2; 3] [1] [(0, 1)]
+     (undigits (gather [1; 0; 2] [2; 3; 1]) (gather [1; 0; 2] [1; 0; 0])) = 3.
+Proof. repeat split; try reflexivity; repeat constructor. Qed.
+
+(* 29. superoperator sides: when the row space has no 1-dimensional subsystem
+       the tensor axes are the column labels followed by the row labels
+       (column stacking), whatever the dimensions *)
+Theorem C09_tensor_order_super_column_stacking :
+  forall l r, allpos l -> Forall (fun d => 2 <= d) l -> allpos r ->
+    tensor_order (steps_super l r) (l ++ r) = seq (length l) (length r) ++ seq 0 (length l).
+Proof. exact tensor_order_super_column_stacking. Qed.
+Print Assumptions C09_tensor_order_super_column_stacking.
+
+Example C09_nonvacuous_super_order :
+  allpos [2; 4] /\ Forall (fun d => 2 <= d) [2; 4] /\ allpos [6; 1; 8] /\
+  tensor_order (steps_super [2; 4] [6; 1; 8]) ([2; 4] ++ [6; 1; 8]) = [2; 3; 4; 0; 1].
+Proof. repeat split; try reflexivity; repeat constructor; lia. Qed.
